@@ -1,6 +1,7 @@
 package main
 
 import (
+	"sort"
 	"go/constant"
 	"go/token"
 	"go/types"
@@ -164,7 +165,7 @@ func registerModels(e *Engine) {
 				lockDiscipline := ft.con != nil && ft.con.Strict
 				switch mode {
 				case "lock":
-					ft.oblige("lock-reentry", pos, "", guard, eq(app("select", h, l), "0"), false)
+					ft.oblige("lock-reentry", pos, "", guard, eq(app("select", h, l), "0"), ft.lockDiscipline() && paramLockDirect(lockArg(c)))
 					ft.set(st, hk, app("store", h, l, "2"))
 					if v := lockArg(c); v != nil {
 						ft.lockAcquire(st, guard, v, pos)
@@ -172,7 +173,7 @@ func registerModels(e *Engine) {
 					// atlock() refers to the state right after the most recent lock acquisition
 					ft.afterLock = st.clone()
 				case "rlock":
-					ft.oblige("lock-reentry", pos, "", guard, not(eq(app("select", h, l), "2")), false)
+					ft.oblige("lock-reentry", pos, "", guard, eq(app("select", h, l), "0"), ft.lockDiscipline() && paramLockDirect(lockArg(c)))
 					ft.set(st, hk, app("store", h, l, "1"))
 					if v := lockArg(c); v != nil {
 						ft.lockAcquire(st, guard, v, pos)
@@ -628,4 +629,88 @@ func variadicOperands(v ssa.Value) ([]ssa.Value, bool) {
 		}
 	}
 	return ops, true
+}
+
+
+// directParamLocks: the mutexes a function acquires on a field of one of its own parameters
+// (c.mu.Lock(), m.mu.RLock()) - itself or through static calls that pass the parameter along
+// (rm.GetRoom(name) locks rm.mu) - as contract expressions `addr(<param>.<field>)`.
+func directParamLocks(fn *ssa.Function) []string {
+	return paramLocksRec(fn, map[*ssa.Function]bool{})
+}
+
+func paramLocksRec(fn *ssa.Function, visiting map[*ssa.Function]bool) []string {
+	if fn == nil || fn.Blocks == nil || visiting[fn] || len(visiting) > 12 {
+		return nil
+	}
+	visiting[fn] = true
+	defer delete(visiting, fn)
+	seen := map[string]bool{}
+	var out []string
+	add := func(txt string) {
+		if !seen[txt] {
+			seen[txt] = true
+			out = append(out, txt)
+		}
+	}
+	for _, b := range fn.Blocks {
+		for _, ins := range b.Instrs {
+			ci, ok := ins.(ssa.CallInstruction)
+			if !ok {
+				continue
+			}
+			if _, isGo := ins.(*ssa.Go); isGo {
+				continue
+			}
+			f := ci.Common().StaticCallee()
+			if f == nil {
+				continue
+			}
+			switch normName(f.String()) {
+			case "(*sync.Mutex).Lock", "(*sync.RWMutex).Lock", "(*sync.RWMutex).RLock":
+				if len(ci.Common().Args) == 0 {
+					continue
+				}
+				fa, ok := ci.Common().Args[0].(*ssa.FieldAddr)
+				if !ok {
+					continue
+				}
+				par, ok := fa.X.(*ssa.Parameter)
+				if !ok || par.Name() == "" || par.Name() == "_" {
+					continue
+				}
+				st, ok := deref(par.Type()).Underlying().(*types.Struct)
+				if !ok {
+					continue
+				}
+				add("addr(" + par.Name() + "." + st.Field(fa.Field).Name() + ")")
+			default:
+				if f.Blocks == nil || f.Pkg != fn.Pkg {
+					continue
+				}
+				for _, txt := range paramLocksRec(f, visiting) {
+					pn := txt[len("addr("):strings.Index(txt, ".")]
+					for k, cp := range f.Params {
+						if cp.Name() == pn && k < len(ci.Common().Args) {
+							if par, ok := ci.Common().Args[k].(*ssa.Parameter); ok && par.Name() != "" && par.Name() != "_" {
+								add("addr(" + par.Name() + txt[strings.Index(txt, "."):])
+							}
+						}
+					}
+				}
+			}
+		}
+	}
+	sort.Strings(out)
+	return out
+}
+
+// paramLockDirect: the lock operand is a mutex field of a parameter of the function under verification.
+func paramLockDirect(v ssa.Value) bool {
+	fa, ok := v.(*ssa.FieldAddr)
+	if !ok {
+		return false
+	}
+	_, ok = fa.X.(*ssa.Parameter)
+	return ok
 }
